@@ -90,17 +90,26 @@ def attr_value(env: Env, kind: str, rng):
     if kind == "AttrStrings":
         return [rng.choice(["x", "yy", ""]) for _ in range(rng.randrange(0, 3))]
     if kind == "AttrTensor":
-        return np.arange(rng.randrange(1, 4), dtype=rng.choice([np.int64, np.float32]))
+        from harness.props.c11 import LAYOUTS, layout_array
+
+        return layout_array(np, rng.choice(LAYOUTS), rng.choice(["float32", "int64", "<U2", "bool", "uint8", "float64"]))
     if kind == "AttrType":
         return env.ts.Tensor(np.float32, (rng.randrange(1, 4),))
     if kind == "AttrDtype":
         return rng.choice([np.int32, np.float64, np.bool_])
     if kind == "AttrTensors":
-        return [np.arange(rng.randrange(1, 3), dtype=rng.choice([np.int64, np.float32])) for _ in range(rng.randrange(0, 3))]
+        from harness.props.c11 import LAYOUTS, layout_array
+
+        return [layout_array(np, rng.choice(LAYOUTS), rng.choice(["float32", "int64", "bool"])) for _ in range(rng.randrange(0, 3))]
     if kind == "AttrGraph":
         c = rng.randrange(1, 5)
         return env.subgraph((), lambda: [env.op.const(np.array([float(c)], np.float32))])
     raise ValueError(kind)
+
+
+def tensor_repr(arr) -> str:
+    kind = "str" if arr.dtype.kind in "US" else str(arr.dtype.newbyteorder("="))
+    return f"{kind}:{tuple(arr.shape)}:{arr.tolist()}"
 
 
 def attr_repr(env: Env, ap) -> str:
@@ -109,8 +118,9 @@ def attr_repr(env: Env, ap) -> str:
     v = onnx.helper.get_attribute_value(ap)
     AP = onnx.AttributeProto
     if ap.type == AP.TENSOR:
-        arr = onnx.numpy_helper.to_array(v)
-        return f"tensor:{arr.dtype}:{arr.tolist()}"
+        from harness.props.c11 import decode_tensor
+
+        return "tensor:" + tensor_repr(decode_tensor(env.np, onnx, v))
     if ap.type == AP.TYPE_PROTO:
         return "type:" + v.SerializeToString().hex()
     if ap.type == AP.STRING:
@@ -128,8 +138,9 @@ def attr_repr(env: Env, ap) -> str:
     if ap.type == AP.GRAPH:
         return "graph"
     if ap.type == AP.TENSORS:
-        arrs = [onnx.numpy_helper.to_array(x) for x in v]
-        return "tensors:" + repr([(str(a.dtype), a.tolist()) for a in arrs])
+        from harness.props.c11 import decode_tensor
+
+        return "tensors:" + repr([tensor_repr(decode_tensor(env.np, onnx, x)) for x in v])
     return "other"
 
 
@@ -150,14 +161,14 @@ def given_repr(env: Env, kind: str, v) -> str:
     if kind == "AttrStrings":
         return "ss:" + repr(list(v))
     if kind == "AttrTensor":
-        return f"tensor:{v.dtype}:{v.tolist()}"
+        return "tensor:" + tensor_repr(v)
     if kind == "AttrType":
         tp = onnx.helper.make_tensor_type_proto(onnx.helper.np_dtype_to_tensor_dtype(np.dtype(v.dtype)), v.shape)
         return "type:" + tp.SerializeToString().hex()
     if kind == "AttrDtype":
         return "i:" + str(onnx.helper.np_dtype_to_tensor_dtype(np.dtype(v)))
     if kind == "AttrTensors":
-        return "tensors:" + repr([(str(a.dtype), a.tolist()) for a in v])
+        return "tensors:" + repr([tensor_repr(a) for a in v])
     if kind == "AttrGraph":
         return "graph"
     return "other"
@@ -328,8 +339,14 @@ def instantiate(env: Env, sig, cls, rng, given_inputs=None):
         if inst["attrs"][a["name"]]:
             v = attr_value(env, a["kind"], arng)
             avals[a["name"]] = v
+            handed = v
+            if a["kind"] in ("AttrInt64s", "AttrFloat32s", "AttrStrings", "AttrTensors"):
+                from harness.props.c11 import as_form
+
+                form = arng.choice(["list", "tuple", "gen", "ndarray"])
+                handed = as_form(np, list(v), form) if not (form == "ndarray" and a["kind"] == "AttrTensors") else tuple(v)
             try:
-                akw[a["name"]] = getattr(env.A, a["kind"])(v, a["name"])
+                akw[a["name"]] = getattr(env.A, a["kind"])(handed, a["name"])
             except Exception as e:  # noqa: BLE001
                 raise AttrRejected(a["kind"], f"{type(e).__name__}: {e}") from e
         else:
